@@ -177,7 +177,14 @@ def _cold_reset():
     cm._dodecahedron = dd.DodecahedronProjection()
 
 
-def h_api(c, idx, cold=False):
+def _hot_fill():
+    """every cache of the projection filled with as many distinct keys as ordinary use produces (all 240 resolution-2 cells)."""
+    import a5
+    for cid in a5.cell_to_children(0, 2):
+        a5.cell_to_lonlat(cid)
+
+
+def h_api(c, idx, cold=False, hot=False):
     """concrete API call on the real code with every shared container hooked: search for reads of a
     shared numeric cell that follow a preemption point after the call's own write (interference window)."""
     import a5
@@ -187,7 +194,11 @@ def h_api(c, idx, cold=False):
         _cold_reset()
     else:
         try:
-            getattr(a5, name)(*args)          # warm the key-determined caches: their fill is covered by the cold job
+            if hot:
+                _cold_reset()
+                cold = True                   # structural obligations only (as for the cold run); the fill runs under the hooks
+            else:
+                getattr(a5, name)(*args)      # warm the key-determined caches: their fill is covered by the cold job
         except Exception:
             pass
     sf.install_float_mode(c, "real")
@@ -203,7 +214,7 @@ def h_api(c, idx, cold=False):
         v._symx_entry = None
     clock = shared.Clock(REPO)
     symbolic_ok = True
-    call = lambda: getattr(a5, name)(*args)          # noqa: E731
+    call = (lambda: (_hot_fill(), getattr(a5, name)(*args))[1]) if hot else (lambda: getattr(a5, name)(*args))    # noqa: E731
     try:
         try:
             if cold:
@@ -234,7 +245,7 @@ def h_api(c, idx, cold=False):
         undo_math()
         shared.restore_state(snap)
     info = {"api": name, "args": repr(args)[:200], "idx": idx, "windows": [list(w) for w in windows[:6]],
-            "events": len(clock.events), "candidate": True, "symbolic_schedule": symbolic_ok}
+            "events": len(clock.events), "candidate": True, "symbolic_schedule": symbolic_ok, "hot": hot}
     if symbolic_ok:
         if k != k2:
             c.fail("api:never-raises-because-of-interleaving", info=info)
@@ -268,6 +279,8 @@ def jobs(tier, seed):
         js.append(Job("api[%d:%s]" % (i, API_CALLS[i][0]), "h_api", {"idx": i}, {"logic": None}, weight=2))
         if API_CALLS[i][0] in ("lonlat_to_cell", "cell_to_lonlat", "cell_to_boundary"):
             js.append(Job("api-cold[%d:%s]" % (i, API_CALLS[i][0]), "h_api", {"idx": i, "cold": True}, {"logic": None}, weight=2))
+            if i % 4 == 0 or tier != "quick":
+                js.append(Job("api-hot[%d:%s]" % (i, API_CALLS[i][0]), "h_api", {"idx": i, "hot": True}, {"logic": None}, weight=3))
     return js
 
 
@@ -321,10 +334,12 @@ def make():
 k, n, seq, r = rs.sweep(make, name, prefix, max_events=1500)
 if k is None and %r:
     k, n, seq, r = rs.sweep(make, name, prefix, max_events=1500, reset=rs.cold_reset, same_call_interferer=make)
+if k is None and %r:
+    k, n, seq, r = rs.sweep(make, name, prefix, max_events=1500, reset=rs.hot_reset)
 if k is not None:
     print("REPRODUCED schedule-dependent:a5.%%s (preempt at line event %%d of %%d)" %% (name, k, n)); sys.exit(1)
 print("ok")
-""" % (VERIF, name, args, bool(info.get("cold")))
+""" % (VERIF, name, args, bool(info.get("cold")), bool(info.get("hot")))
         return {"script": script, "description": "schedule dependence of a5.%s" % name, "candidate": True}
     return None
 
